@@ -15,7 +15,7 @@ CLAUSE_PROP = [
     ("FiresIff", "C02"), ("ArgBinding", "C02"), ("MissingExact", "C02"), ("DisabledNeverFires", "C02"),
     ("NoEscape", "C03"), ("Isolation", "C03"), ("NothingElsewhere", "C03"), ("Accounted", "C03"),
     ("SkipRecorded", "C03"), ("NoPhantomExc", "C03"),
-    ("PartitionExact", "C04"), ("OneWorkerPerSub", "C04"), ("sub.", "C04"), ("att.", "C04"),
+    ("PartitionExact", "C04"), ("OneWorkerPerSub", "C04"), ("sub.", "C04"), ("att.", "C04"), ("Confluence", "C04"),
 ]
 
 
@@ -84,6 +84,15 @@ CONFIGS = {
     "dis3q": dict(N=3, kinds=["plain", "rule"], outs=["val"], items=1, grp=2, disabled=True),
     "faults3q": dict(N=3, kinds=["datasource", "parser", "point"], outs=["val", "list", "cmd", "skip"],
                      eouts=["val", "skip", "crash"], items=1, grp=1, ss=[False, True]),
+    # per-element faults of multi-output parsers, every fault kind, continue_on_error on/off
+    "elems3": dict(N=3, kinds=["datasource", "parser"], outs=["list", "val"],
+                   eouts=["val", "skip", "content", "crash"], items=1, grp=1, ss=[False, True]),
+    "elems3full": dict(N=3, kinds=["datasource", "parser"], outs=["list", "val"],
+                       eouts=["val", "none", "skip", "content", "cmd", "timeout", "crash"], items=1, grp=1, ss=[False, True]),
+    # missing requirements: required and at-least-one unmet at the same time, rules and plain components
+    "miss3q": dict(N=3, kinds=["plain", "rule"], outs=["val", "skip"], items=2, grp=2),
+    # graphs that are not dependency-closed (caller-supplied sub-dictionaries), None seeds
+    "oog3": dict(N=3, kinds=["plain"], outs=["val", "none"], items=1, grp=1, oog=True, seeded=True),
     "faults3c": dict(N=3, kinds=["datasource", "combiner", "point"], outs=["val", "content", "timeout", "crash"],
                      items=1, grp=2, ss=[False, True]),
 }
@@ -91,13 +100,13 @@ CONFIGS = {
 PLAN = {
     "C01": dict(quick=["shapes3", "seeds3"], thorough=["shapes3", "seeds3", "lin4", "ignore3"],
                 drivers=["forced", "run"]),
-    "C02": dict(quick=["kinds3q", "rules3q", "dis3q"], thorough=["kinds3", "rules3", "dis3q", "shapes3", "ignore3"],
+    "C02": dict(quick=["kinds3q", "miss3q", "dis3q"], thorough=["kinds3", "rules3", "miss3q", "dis3q", "shapes3", "ignore3"],
                 drivers=["forced", "run"]),
-    "C03": dict(quick=["faults3q", "faults3c"], thorough=["faults3", "faults3b", "faults3c", "faults4", "rules3"],
+    "C03": dict(quick=["faults3q", "faults3c", "elems3"], thorough=["faults3", "faults3b", "faults3c", "faults4", "rules3", "elems3full"],
                 drivers=["forced", "run"]),
-    "C04": dict(quick=["lin4"], thorough=["lin4", "seeds3", "faults3q", "shapes3"],
+    "C04": dict(quick=["lin4", "oog3"], thorough=["lin4", "oog3", "seeds3", "faults3q", "shapes3", "miss3q"],
                 drivers=["forced", "run", "incr", "pool2", "pool3s"],
-                model_only=dict(quick=["pool4a", "pool3"], thorough=["pool4a", "pool4b", "pool3"])),
+                model_only=dict(quick=["pool4a"], thorough=["pool4a", "pool4b", "pool3"])),
 }
 
 SIM = dict(N=5, kinds=["plain", "datasource", "parser", "combiner", "rule", "condition", "point"],
@@ -166,13 +175,14 @@ def run(prop, tier):
             r.cases = []
             models.append(r)
     emitted = len(raw)
-    cap = (14000 if len(plan["drivers"]) > 2 else 30000) if tier == "quick" else 300000
+    cap = (8000 if len(plan["drivers"]) > 2 else 30000) if tier == "quick" else (120000 if len(plan["drivers"]) > 2 else 300000)
     rng.shuffle(raw)
     # the model runs stay exhaustive; the replay takes a VERIF_SEED-determined sample when over budget
     for name, i, line in raw[:cap]:
         c = lib.parse_case(line)
         c["id"] = "%s#%d" % (name, i)
         c["cfg"] = name
+        c["variant"] = rng.randrange(6)
         cases.append(c)
     nprog_all = None
     del raw
@@ -184,12 +194,38 @@ def run(prop, tier):
     nprog = len(seen)
     print("timing: models %.1fs, %d behaviours emitted, %d replayed" % (time.time() - t0, emitted, len(cases)))
     t1 = time.time()
+    bycase_early = dict((c["id"], c) for c in cases)
     payloads = [dict(cases=ch, drivers=plan["drivers"], npad=6, listlen=2, obsfail_every=3)
                 for ch in lib.chunks(cases, lib.NCPU * 2)]
     outs = lib.run_driver_parallel("drive_dr.py", payloads, hashseeds=list(range(0, 64)), timeout=1500)
     traces = []
     for o in outs:
         traces.extend(o["traces"])
+    if prop == "C04":
+        # the same programs once more through dr.run in processes with other hash seeds, then one
+        # "same" trace per program: every run must leave exactly the same values, missing-dependency
+        # reports (order included) and recorded failures as the first one
+        p2 = [dict(cases=[c for c in ch if not c["dup"]], drivers=["run"], npad=6, listlen=2, obsfail_every=0,
+                   idtag="@B") for ch in lib.chunks(cases, lib.NCPU)]
+        for o in lib.run_driver_parallel("drive_dr.py", p2, hashseeds=list(range(101, 140)), timeout=1500):
+            traces.extend(o["traces"])
+        groups = {}
+        for t in traces:
+            if t.get("final") is not None:
+                groups.setdefault(case_key(bycase_early[t["id"].split("/")[0]]), []).append(t)
+        nsame = 0
+        for k, ts in groups.items():
+            if len(ts) < 2:
+                continue
+            first = ts[0]
+            traces.append(dict(id=first["id"].split("/")[0] + "/same", prog=first["prog"], ss=first["ss"], mode="single",
+                               workers=1, final=None,
+                               events=[dict(ev="same", ra=first["id"], rb=t["id"], a=first["final"], b=t["final"])
+                                       for t in ts[1:]]))
+            nsame += len(ts) - 1
+        print("cross-run comparisons: %d" % nsame)
+    for t in traces:
+        t.pop("final", None)
     print("timing: drivers %.1fs, %d traces" % (time.time() - t1, len(traces)))
     t1 = time.time()
     val = lib.validate_traces("DrTrace", "DrTrace.cfg", traces)
